@@ -10,8 +10,8 @@ import pathlib
 import aioftp
 from aioftp import server as aserver
 
-from .. import core, sx, wire
-from .c02 import py_normalize
+from .. import core, ftpsim, simnet, sx, wire
+from .c02 import py_normalize, rec_factory
 
 ID = "C04"
 EXTRACT = "ExC04"
@@ -334,6 +334,263 @@ async def wire_table(ctx, table, rng, budget):
     return n
 
 
+
+# ---------------------------------------------------------------- wire level: commands between 150 and the data connection
+# LIST / MLSD / RETR / STOR / APPE answer 150 and a worker task does the work when the data connection arrives.
+# Whatever the session does in between (CWD, CDUP, another USER/PASS), the object read or written must be the one
+# the permission lookup was made on, and a denied request must stay inert.
+IL_USERS = [("u", "p", "/", "/"), ("v", "q", "/", "/"), ("w", "r", "/rw", "/")]
+IL_VERBS = {"STOR": 1, "APPE": 1, "RETR": 0, "LIST": 0, "MLSD": 0}
+IL_TARGETS = {
+    "STOR": [("/rw", "new"), ("/rw", "f"), ("/rw/d", "new"), ("/rw", "d/new"), ("/rw/d", "../new"), ("/pub", "new"), ("/", "rw/new"), ("/pub/sub", "../../rw/new"), ("/priv/d", "new")],
+    "RETR": [("/rw", "f"), ("/pub", "f"), ("/pub", "sub/g"), ("/pub/sub", "g"), ("/pub/sub", "../f"), ("/", "top"), ("/rw/d", "../f"), ("/priv", "f"), ("/", "priv/f")],
+    "LIST": [("/", ""), ("/pub", ""), ("/pub", "sub"), ("/pub/sub", ".."), ("/rw", "d"), ("/rw/d", "."), ("/", "priv"), ("/priv", "d"), ("/rw", "../pub")],
+}
+IL_TARGETS["APPE"] = IL_TARGETS["STOR"]
+IL_TARGETS["MLSD"] = IL_TARGETS["LIST"]
+IL_BETWEEN = [
+    [], [("CWD", "/priv/d")], [("CWD", "/pub")], [("CWD", "/rw/d")], [("CWD", "/")], [("CWD", "/rw")], [("CWD", "/pub/sub")], [("CWD", "/priv")], [("CDUP", "")],
+    [("CDUP", ""), ("CDUP", "")], [("USER", "v"), ("PASS", "q")], [("USER", "w"), ("PASS", "r")], [("USER", "v")], [("USER", "nobody")],
+    [("CWD", "/pub/sub"), ("CDUP", "")], [("PWD", "")], [("USER", "w"), ("PASS", "r"), ("CWD", "d")], [("CWD", "/rw"), ("USER", "v"), ("PASS", "q")],
+]
+IL_PAYLOAD = b"<uploaded>"
+
+
+def tree_get(tree, parts):
+    t = tree
+    for p in parts:
+        if not isinstance(t, dict) or p not in t:
+            return None
+        t = t[p]
+    return t
+
+
+def tree_put(tree, parts, value):
+    """copy of tree with tree[parts] = value (parents must exist)"""
+    if not parts:
+        return value
+    out = dict(tree)
+    out[parts[0]] = tree_put(tree.get(parts[0], {}), parts[1:], value)
+    return out
+
+
+def il_tables(ti):
+    """permission tables of the three users for table index ti"""
+    t_u = WIRE_TABLES[ti]
+    t_v = WIRE_TABLES[(ti + 1) % len(WIRE_TABLES)]
+    t_w = [("/", True, True), ("/d", False, False)]
+    return [t_u, t_v, t_w]
+
+
+def run_interleave(ti, verb, cwd0, arg, between, data_first=False):
+    """one session on simnet: login u; CWD cwd0; PASV; VERB arg; <between>; data connection; -> observation dict.
+    An exception inside the (mutated) implementation is part of the observation."""
+    log = []
+    ob = {"between": []}
+
+    async def main(net):
+        tabs = il_tables(ti)
+        users = [aioftp.User(l, p, base_path=b, home_path=h, permissions=[aioftp.Permission(x, readable=r, writable=w) for x, r, w in tab])
+                 for (l, p, b, h), tab in zip(IL_USERS, tabs)]
+        server = aioftp.Server(users, path_io_factory=aioftp.MemoryPathIO, wait_future_timeout=5)
+        server.path_io_factory.state = ftpsim.mem_state(TREE)
+        server.path_io_factory.factory = rec_factory(log)
+        await server.start("127.0.0.1", ftpsim.PORT)
+        raw = await simnet.Raw.connect(net, server.server_port)
+        await raw.drain_replies()
+        await raw.send("USER u")
+        ob["login"] = simnet.final_codes(await raw.send("PASS p"))
+        ob["cwd0"] = simnet.final_codes(await raw.send("CWD " + cwd0)) if cwd0 != "/" else ["250"]
+        port = ftpsim.parse_passive(await raw.send("PASV"))
+        ob["port"] = port
+        conn = None
+        if data_first and port is not None:
+            conn = await net.open_connection("127.0.0.1", port)
+            await net.settle()
+        mark = len(log)
+        lines = await raw.send(f"{verb} {arg}".rstrip())
+        ob["codes"], ob["lines"] = simnet.final_codes(lines), lines
+        ob["calls_request"] = log[mark:]
+        for bv, ba in between:
+            bl = await raw.send(f"{bv} {ba}".rstrip())
+            ob["between"].append(simnet.final_codes(bl))
+        mark = len(log)
+        data = b""
+        try:
+            if conn is None and port is not None:
+                conn = await net.open_connection("127.0.0.1", port)
+            if conn is not None:
+                r, w = conn
+                if verb in ("STOR", "APPE"):
+                    w.write(IL_PAYLOAD)
+                    w.close()
+                await net.settle()
+                data = bytes(r._buffer)
+                if not w.transport.is_closing():
+                    w.close()
+        except (ConnectionRefusedError, OSError) as e:
+            ob["data_error"] = repr(e)
+        after = await raw.drain_replies()
+        ob["after"] = simnet.final_codes(after)
+        ob["data"] = data
+        ob["calls_worker"] = log[mark:]
+        pw = await raw.send("PWD")
+        ob["pwd"] = pw[-1][4:].strip().strip('"') if simnet.final_codes(pw) == ["257"] else None
+        ob["ended"] = raw.eof
+        ob["tree"] = ftpsim.final_tree(server, "memory")
+        await server.close()
+
+    try:
+        simnet.run(main)
+    except Exception as e:  # noqa: BLE001 - observation, the search goes on
+        ob["error"] = repr(e)
+    return ob
+
+
+def il_oracle(ti, verb, cwd0, arg, between, ob):
+    """independent statement of the property for one interleaved session -> list of (kind, detail)"""
+    if "error" in ob:
+        return [("driver-error", ob["error"])]
+    if ob.get("cwd0") != ["250"] or ob.get("login") != ["230"] or ob.get("port") is None:
+        return []  # the starting directory is not reachable under this table: nothing to say
+    table = il_tables(ti)[0]
+    ents = [entry_parts(p) for p, _, _ in table]
+    fi = IL_VERBS[verb]
+    norm = py_normalize(cwd0, arg)
+    idx = py_nearest(ents, norm)
+    allowed = True if idx < 0 else bool(table[idx][1 + fi])
+    tree0 = ftpsim.canon_tree(TREE)
+    codes = ob["codes"]
+    bad = []
+    target = "/" + "/".join(norm)
+    if not allowed:
+        if codes != ["550"]:
+            bad.append(("denied-not-550", f"{verb} {arg!r} from {cwd0} is governed by entry {idx} {table[idx]} (not allowed) but answered {codes}"))
+        if ob["tree"] != tree0:
+            bad.append(("denied-not-inert", f"refused {verb} {arg!r} from {cwd0}: the tree changed"))
+        if ob["data"]:
+            bad.append(("denied-not-inert", f"refused {verb} {arg!r} from {cwd0}: {len(ob['data'])} bytes were sent on the data connection"))
+        return bad
+    if codes == ["550"] and "permission denied" in " ".join(ob["lines"]):
+        bad.append(("allowed-refused", f"{verb} {arg!r} from {cwd0} is allowed by entry {idx} but answered 550 permission denied"))
+        return bad
+    if codes != ["150"]:
+        # refused for another reason (missing file, unreachable parent): must be inert
+        if ob["tree"] != tree0:
+            bad.append(("refused-not-inert", f"{verb} {arg!r} answered {codes} and the tree changed"))
+        return bad
+    # 150: the worker ran (or failed) after `between`; the object must be the authorised one
+    opened = [a[0] for n, a in ob["calls_worker"] if n in ("_open", "list") and a]
+    if opened and any(p != target for p in opened):
+        bad.append(("wrong-object", f"{verb} {arg!r} authorised as {target!r} (cwd {cwd0}); after {between} the worker handed {opened} to the backend"))
+    old = tree_get(tree0, norm)
+    if verb in ("STOR", "APPE"):
+        if "226" in ob["after"]:
+            content = IL_PAYLOAD if verb == "STOR" or not isinstance(old, bytes) else old + IL_PAYLOAD
+            want = ftpsim.canon_tree(tree_put(tree0, norm, content))
+        else:
+            want = None
+        if want is not None and ob["tree"] != want:
+            bad.append(("wrong-object", f"{verb} {arg!r} authorised as {target!r} (cwd {cwd0}); after {between} and the upload the tree is not the initial one with {target!r} written"))
+        if want is None and ob["tree"] != tree0 and tree_get(ob["tree"], norm) == tree_get(tree0, norm):
+            bad.append(("wrong-object", f"{verb} {arg!r} authorised as {target!r}: the transfer did not complete ({ob['after']}) but something else in the tree changed"))
+    else:
+        if ob["tree"] != tree0:
+            bad.append(("wrong-object", f"{verb} {arg!r}: a reading transfer changed the tree"))
+        if verb == "RETR" and ob["data"] != (old if isinstance(old, bytes) else b"") and "226" in ob["after"]:
+            bad.append(("wrong-object", f"RETR {arg!r} authorised as {target!r} (cwd {cwd0}); after {between} the data connection delivered {ob['data']!r}, the file holds {old!r}"))
+        if verb in ("LIST", "MLSD") and isinstance(old, dict) and ("226" in ob["after"] or "200" in ob["after"]):
+            try:
+                names = sorted(n for n, _, _ in ftpsim.parse_listing(ob["data"], verb.lower()))
+            except Exception:  # noqa: BLE001
+                names = ["<unparsable>"]
+            if names != sorted(old):
+                bad.append(("wrong-object", f"{verb} {arg!r} authorised as {target!r} (cwd {cwd0}); after {between} the listing shows {names}, the directory holds {sorted(old)}"))
+    return bad
+
+
+def il_model_arg(ti, verb, cwd0, arg, between, ob):
+    tabs = il_tables(ti)
+    ents = [[i, p, r, w] for i, (p, r, w) in enumerate(tabs[0])]
+    bs = []
+    for (bv, ba), codes in zip(between, ob["between"]):
+        if bv == "CWD":
+            bs.append([0, ba, codes == ["250"]])
+        elif bv == "CDUP":
+            bs.append([1, codes == ["250"]])
+        elif bv == "USER" and codes and codes[0] in ("331", "230"):
+            k = [u[0] for u in IL_USERS].index(ba)
+            bs.append([2, IL_USERS[k][2], IL_USERS[k][3], [[i, p, r, w] for i, (p, r, w) in enumerate(tabs[k])]])
+        else:
+            bs.append([3])
+    return [ents, [IL_VERBS[verb]], "/", cwd0, arg, bs, 0]
+
+
+def il_cases(rng, thorough):
+    cases = []
+    for ti in range(len(WIRE_TABLES)):
+        for verb in IL_VERBS:
+            for cwd0, arg in IL_TARGETS[verb]:
+                for between in IL_BETWEEN:
+                    cases.append((ti, verb, cwd0, arg, between))
+    if thorough:
+        return cases
+    # quick: every (verb, target, between) triple is run under one table (round-robin), every table sees every verb
+    # and every between; plus the no-interleaving baseline of each target under each table
+    keep = [c for i, c in enumerate(cases) if (i // len(IL_BETWEEN) + i % len(IL_BETWEEN)) % len(WIRE_TABLES) == c[0] and (i % 3 == 0 or c[4] == [])]
+    return keep
+
+
+def stream_interleave(ctx, xcheck):
+    rng = ctx.rng
+    cases = il_cases(rng, ctx.tier == "thorough")
+    n150 = nden = 0
+    margs, mkeep = [], []
+    for ti, verb, cwd0, arg, between in cases:
+        ctx.case(("interleave", ti, verb, cwd0, arg, repr(between)))
+        ctx.traces_impl += 1
+        ob = run_interleave(ti, verb, cwd0, arg, [tuple(b) for b in between])
+        n150 += ob.get("codes") == ["150"]
+        nden += ob.get("codes") == ["550"]
+        for kind, detail in il_oracle(ti, verb, cwd0, arg, between, ob)[:2]:
+            il_report(ctx, detail, {"key": f"c04-interleave-{verb.lower()}-{kind}", "interleave": True, "table": ti, "verb": verb, "cwd": cwd0,
+                                    "arg": arg, "between": [list(b) for b in between]})
+        if "error" not in ob and ob.get("cwd0") == ["250"] and ob.get("port") is not None:
+            margs.append((43, il_model_arg(ti, verb, cwd0, arg, between, ob)))
+            mkeep.append(((ti, verb, cwd0, arg, between), ob))
+    out = ctx.model(margs)
+    for (case, ob), (fn, a), mo in zip(mkeep, margs, out):
+        if mo[0] != 0:
+            ctx.disagree("interleave-model", case, mo, "model refused")
+            continue
+        decision, _entry, wpath, _cwd1 = mo[1]
+        codes = ob["codes"]
+        if decision == 550 and codes != ["550"]:
+            ctx.disagree("interleave-decision", case, 550, codes)
+        if decision == 0 and codes == ["550"] and "permission denied" in " ".join(ob["lines"]):
+            ctx.disagree("interleave-decision", case, 0, codes)
+        opened = [x[0] for n, x in ob["calls_worker"] if n in ("_open", "list") and x]
+        if codes == ["150"] and opened and (not wpath or any(p != sx.txt(wpath[0]) for p in opened)):
+            ctx.disagree("interleave-worker-path", case, sx.txt(wpath[0]) if wpath else None, opened)
+    ctx.count("interleave_sessions", len(cases))
+    ctx.count("interleave_150_then_between", n150)
+    ctx.count("interleave_refused_550", nden)
+    xcheck.extend((fn, a, mo) for (fn, a), mo in list(zip(margs, out))[:: max(1, len(margs) // 10)][:10])
+    ctx.sample({"stream": "interleave", "verb": "STOR", "cwd": "/rw", "arg": "new", "between": [["CWD", "/pub"]]})
+
+
+_IL_REPORTED = {}
+
+
+def il_report(ctx, what, payload, per_key=2):
+    n = _IL_REPORTED.get(payload["key"], 0)
+    _IL_REPORTED[payload["key"]] = n + 1
+    if n < per_key:
+        ctx.violation(what, payload)
+    else:
+        ctx.count("further_violations_" + payload["key"])
+
+
 def stream_wire(ctx):
     rng = ctx.rng
     total = 0
@@ -357,6 +614,7 @@ def correspondence(ctx):
     xcheck = []
     stream_lookup(ctx, xcheck)
     stream_decorator(ctx, xcheck)
+    stream_interleave(ctx, xcheck)
     stream_wire(ctx)
     ok, out = core.vm_crosscheck(EXTRACT, xcheck[:100])
     ctx.extra["vm_compute_crosscheck"] = {"cases": len(xcheck[:100]), "agree": ok}
@@ -381,6 +639,16 @@ def search(ctx):
 def replay(ctx, data):
     r = data.get("replay", {})
     key = r.get("key", "")
+    if r.get("interleave"):
+        between = [tuple(b) for b in r["between"]]
+        ob = run_interleave(r["table"], r["verb"], r["cwd"], r["arg"], between)
+        print("request", r["verb"], r["arg"], "from", r["cwd"], "->", ob.get("codes"), "| between", between, "->", ob.get("between"),
+              "| after the data connection", ob.get("after"), "data", ob.get("data"))
+        print("backend calls of the worker:", ob.get("calls_worker"))
+        bad = il_oracle(r["table"], r["verb"], r["cwd"], r["arg"], r["between"], ob)
+        for kind, detail in bad:
+            print("oracle:", kind, detail)
+        return not bad
     if key == "c04-lookup":
         perms = [aioftp.Permission(p, readable=rr, writable=w) for _, p, rr, w in r["table"]]
         user = aioftp.User(permissions=perms or None)
